@@ -31,6 +31,18 @@ type Property struct {
 
 var Registry = map[string]*Property{}
 
+// idNumbering: the three rules that pin the file ids of the protocol to the
+// zero-based position in the STAT sequence on both ends (R06.1, R07.1, R07.2).
+// Shared with every property whose statement is about what a transfer leaves
+// behind: the library's two ends agreeing with each other on some other
+// numbering passes every round-trip test and hands a conforming peer the
+// bytes of a neighbouring file.
+func idNumbering(c *Ctx, sender, recvCounter, recvStore string) {
+	r06_1(c, sender)
+	r07_1(c, recvCounter)
+	r07_2(c, recvStore)
+}
+
 func register(id, explanation string, run func(c *Ctx)) {
 	Registry[id] = &Property{ID: id, Explanation: explanation, Run: run}
 }
